@@ -75,6 +75,10 @@ type AToken struct {
 	Tamper string `json:"tamper,omitempty"`
 	AlgOk  bool   `json:"algOk"`
 	Nonce  string `json:"nnc,omitempty"`
+	// ExpRel / NbfRel: offsets from the wall-clock second at which the case is executed (C03); the
+	// executor turns them into absolute Exp / Nbf
+	ExpRel *int `json:"expRel,omitempty"`
+	NbfRel *int `json:"nbfRel,omitempty"`
 }
 
 type ADesc struct {
